@@ -1,0 +1,46 @@
+//! Read-only access for the verification harness in /verif. Compiled only with
+//! `--cfg simple_dns_verif`; nothing here changes the behaviour of the library.
+#![allow(missing_docs)]
+
+use super::{rdata::RData, CharacterString, Name, Question, ResourceRecord, WireFormat};
+
+/// `Name::parse` at `position`; returns the name and the new cursor
+pub fn parse_name_at(data: &[u8], position: usize) -> crate::Result<(Name<'_>, usize)> {
+    let mut position = position;
+    Name::parse(data, &mut position).map(|name| (name, position))
+}
+
+/// `Question::parse` at `position`; returns the question and the new cursor
+pub fn parse_question_at(data: &[u8], position: usize) -> crate::Result<(Question<'_>, usize)> {
+    let mut position = position;
+    Question::parse(data, &mut position).map(|q| (q, position))
+}
+
+/// `ResourceRecord::parse` at `position`; returns the record and the new cursor
+pub fn parse_record_at(
+    data: &[u8],
+    position: usize,
+) -> crate::Result<(ResourceRecord<'_>, usize)> {
+    let mut position = position;
+    ResourceRecord::parse(data, &mut position).map(|rr| (rr, position))
+}
+
+/// The raw bytes of a character-string
+pub fn character_string_bytes<'b>(value: &'b CharacterString<'_>) -> &'b [u8] {
+    &value.data
+}
+
+/// `WireFormat::len` of an RDATA value
+pub fn rdata_len(rdata: &RData<'_>) -> usize {
+    rdata.len()
+}
+
+/// `WireFormat::write_to` of an RDATA value
+pub fn rdata_write(rdata: &RData<'_>, out: &mut Vec<u8>) -> crate::Result<()> {
+    rdata.write_to(out)
+}
+
+/// `WireFormat::len` of a name
+pub fn name_len(name: &Name<'_>) -> usize {
+    name.len()
+}
